@@ -48,6 +48,9 @@ def main():
     results = []
     try:
         for m in muts:
+            if 'patch' in m:
+                print('SKIP        %s %-28s (patch-based: exercised by `./check %s thorough`)' % (m['prop'], m['id'], m['prop']))
+                continue
             path = os.path.join(repo, m['file'])
             src = open(path).read()
             if src.count(m['old']) != 1:
